@@ -68,6 +68,7 @@ for _m in ('items', 'keys', 'values', 'get', 'pop', 'setdefault'):
 for _m in ('insert', 'extend', 'clear', 'reverse', 'pop', 'remove', 'index', 'count', 'copy'):
     METHODS.add((list, _m))
 BUILTINS['next'] = next
+BUILTINS['object'] = lambda: Obj(sentinel=True)
 BUILTINS['iter'] = iter
 BUILTINS['enumerate'] = lambda x, start=0: list(enumerate(x, start))
 BUILTINS['str'] = str
@@ -114,6 +115,8 @@ DOTTED_CALLS = {'functools.reduce': _reduce, 'six.iterbytes': lambda b: list(byt
                 'six.int2byte': lambda i: bytes([i]), 'six.ensure_binary': _ensure_binary, 'six.ensure_text': _ensure_text,
                 'six.ensure_str': _ensure_text, 'six.b': lambda s: s.encode('latin-1'), 'six.u': lambda s: s,
                 'six.text_type': str, 'six.binary_type': bytes}
+import collections as _collections
+DOTTED_CALLS['collections.OrderedDict'] = _collections.OrderedDict
 TYPE_VALUES = {'slice': slice, 'int': int, 'str': str, 'bytes': bytes, 'bytearray': bytearray, 'bool': bool, 'list': list, 'tuple': tuple, 'dict': dict, 'set': set}
 
 
@@ -153,6 +156,21 @@ class Evaluator:
         self.env = dict(env)
         self.hook = hook
         self.name_hook = name_hook
+        defaults = getattr(hook, 'default_names', None)
+        if defaults is not None and not getattr(name_hook, 'with_defaults', False):
+            # a class hook brings the module / class level names of its class: consulted when the caller's own name hook
+            # (if any) does not know the name
+            own = name_hook
+
+            def both(name):
+                if own is not None:
+                    try:
+                        return own(name)
+                    except Unsupported:
+                        pass
+                return defaults(name)
+            both.with_defaults = True
+            self.name_hook = both
         self.steps = 0
         self.owner = None       # class whose method is being evaluated (set by function()): source of self.X / cls.X constants
 
@@ -232,8 +250,11 @@ class Evaluator:
                 raise Unsupported('%s: %s' % (ast.unparse(n), e))
         if isinstance(n, ast.Call):
             return self.call(n)
-        if isinstance(n, (ast.ListComp, ast.GeneratorExp)):
+        if isinstance(n, ast.ListComp):
             return self.comprehension(n, 0, [])
+        if isinstance(n, ast.GeneratorExp):
+            # evaluated eagerly (the elements evaluated are side effect free model values), handed on as an iterator
+            return iter(self.comprehension(n, 0, []))
         if isinstance(n, ast.SetComp):
             return set(self.comprehension(n, 0, []))
         if isinstance(n, ast.DictComp):
@@ -492,6 +513,8 @@ def class_call_hook(cls, extra=None, model=None):
     """hook resolving ``cls.m(...)`` / ``self.m(...)`` through the static MRO of ``cls`` (a sa.model.ClassInfo) and
     evaluating the callee's body with the same hook; with ``model`` given, module level class names evaluate to ClassRef
     and calls on a ClassRef resolve the same way; ``extra`` is consulted first"""
+    module_values = {}
+
     def call_method(owner, m, n, ev, bound=None):
         params = [a.arg for a in m.node.args.args]
         first = None
@@ -517,6 +540,16 @@ def class_call_hook(cls, extra=None, model=None):
                 r = model.resolve_name(module, name)
                 if r is not None and hasattr(r, 'mro') and hasattr(r, 'resolve'):
                     return ClassRef(r)
+                if r is not None and type(r).__name__ == 'VarRef' and isinstance(getattr(r, 'node', None), ast.AST):
+                    # a module level constant (table, number, sentinel): evaluated once, so that identity tests work
+                    key = (id(r.module), r.name)
+                    if key not in module_values:
+                        try:
+                            module_values[key] = Evaluator({}, None, name_hook_for(r.module, None)).ev(r.node)
+                        except Unsupported:
+                            module_values[key] = Unsupported
+                    if module_values[key] is not Unsupported:
+                        return module_values[key]
             parts = name.split('.')
             if len(parts) == 2 and (parts[0] in ('cls', 'self') or parts[0] == getattr(cls, 'name', None)) and hasattr(cls, 'resolve_var'):
                 # a class level constant (table, number, string) of the class under evaluation
@@ -530,6 +563,7 @@ def class_call_hook(cls, extra=None, model=None):
             if outer is not None:
                 return outer(name)
             raise Unsupported('free name %s' % name)
+        nh.with_defaults = True
         return nh
 
     def make(owner, module):
@@ -576,4 +610,5 @@ def class_call_hook(cls, extra=None, model=None):
         return hook
     top = make(cls, cls.module)
     top.name_hook_for = name_hook_for
+    top.default_names = name_hook_for(cls.module, None)
     return top
